@@ -2214,3 +2214,14 @@ variant('t-successor-through-two-helpers', ['C13'], 'rsocket/stream_control.py',
         "    def _increment_stream_id(self):\n        self._current_stream_id = (self._current_stream_id + 2) & self._maximum_stream_id",
         "    def _increment_stream_id(self):\n        self._step()\n\n    def _step(self):\n        self._current_stream_id = (self._current_stream_id + 2) & self._maximum_stream_id",
         kind='twin')
+
+# C04.k decoded frames are yielded
+variant('b-parser-keeps-decoded-frames', ['C04'], 'rsocket/frame_parser.py',
+        "                if new_frame is not None:\n                    yield new_frame\n",
+        "                if new_frame is not None:\n                    pass\n", ('C04.k', 'FrameParser.receive_data'))
+variant('b-parser-yields-ignored-frames', ['C04'], 'rsocket/frame_parser.py',
+        "                if new_frame is not None:\n                    yield new_frame\n",
+        "                yield new_frame\n", ('C04.k', 'FrameParser.receive_data'))
+variant('b-parser-yields-only-ignored-frames', ['C04'], 'rsocket/frame_parser.py',
+        "                if new_frame is not None:\n                    yield new_frame\n",
+        "                if new_frame is None:\n                    yield new_frame\n", ('C04.k', 'FrameParser.receive_data'))
